@@ -57,7 +57,7 @@ def gas(desc):
     cell = random_cell(rng, desc["cell"], desc.get("L", 8.0))
     pos = rng.uniform(0, 1, (n, 3)) @ cell
     zs = rng.choice(desc.get("species", [6, 8, 14, 29]), n)
-    a = Atoms(numbers=zs, positions=pos, cell=cell, pbc=desc["pbc"])
+    a = Atoms(numbers=zs, positions=pos, cell=None if desc.get("nocell") else cell, pbc=desc["pbc"])
     if desc.get("unwrapped"):
         a.positions += rng.integers(-2, 3, (n, 3)) * np.array(desc["pbc"])[None, :] @ cell
     return a
@@ -134,15 +134,25 @@ def stack(desc):
     A, B, facet = desc["A"], desc["B"], desc["facet"]
     lat = FCC if A in FCC else BCC
     a0 = lat[A]
-    bottom = slab(A, facet, desc["la"], desc["size"], 0.0, a0)
-    top = slab(B, facet, desc["lb"], desc["size"], 0.0, a0)  # B strained to A's in-plane cell
+    # one slab of la+lb layers in A's lattice (B strained to it); the top lb layers become B, so the stacking
+    # registry continues across the interface for every facet
+    from ase.data import atomic_numbers
+
+    whole = slab(A, facet, desc["la"] + desc["lb"], desc["size"], 0.0, a0)
+    tags = whole.get_tags()  # 1 = top layer
+    top_mask = tags <= desc["lb"]
+    order = np.concatenate([np.flatnonzero(~top_mask), np.flatnonzero(top_mask)])
+    nums = whole.numbers.copy()
+    nums[top_mask] = atomic_numbers[B]
+    whole.numbers = nums
+    s = whole[order]
+    bottom = s[: int((~top_mask).sum())]
     d_int = {"fcc100": a0 / 2, "fcc111": a0 / np.sqrt(3), "bcc100": a0 / 2, "bcc110": a0 / np.sqrt(2)}[facet]
-    top.positions[:, 2] += bottom.positions[:, 2].max() + d_int - top.positions[:, 2].min()
-    s = bottom + top
     c = s.cell[:].copy()
     zmax = s.positions[:, 2].max()
     if desc["pbc_z"]:
-        c[2] = [0, 0, zmax + 14.0]
+        # periodic stacking direction: with vacuum, or as a superlattice (period = stack height + one interlayer distance)
+        c[2] = [0, 0, zmax + (d_int if desc.get("superlattice") else 14.0)]
         s.set_cell(c)
         s.set_pbc(True)
     else:
